@@ -8,7 +8,9 @@
  * What the driver does per op (one library call each):
  *   S  coap_pdu_init(type, GET, mid) + 2-byte token, public coap_send()
  *   A/R  a 4-byte empty ACK / RST datagram through the real receive path (vn_inject_session)
- *   P  a NON 2.05 response carrying the token (separate response -> cancel by token)
+ *   P  a NON 2.05 response carrying the token (separate response -> cancel by token); an optional
+ *      third field is the peer's own message id (default: a counter from 0x8001) - it may collide
+ *      with the id of one of our in-flight CONs, which must not matter
  *   T  the retransmission timer of the send-queue node (session, mid) fires: the node is taken
  *      off the queue (coap_remove_from_queue, what coap_pop_next does for the head) and handed
  *      to coap_retransmit() - exactly what coap_io_prepare_io() does for a due node; the clock
@@ -172,8 +174,10 @@ static void do_case(void) {
         break;
       }
       case 'P': {
-        a = atoi(comma + 1);
-        peer_mid++;
+        unsigned pm = 0;
+        a = 0;
+        if (sscanf(comma + 1, "%d,%u", &a, &pm) == 2) peer_mid = pm;   /* peer's own message id */
+        else peer_mid++;
         uint8_t d[8] = {0x52, 0x45, (uint8_t)(peer_mid >> 8), (uint8_t)peer_mid,
                         (uint8_t)(a >> 8), (uint8_t)a, 0xff, 'x'};
         if (!dead[sid]) vn_inject_session(ctx, s, d, 8);
